@@ -90,7 +90,20 @@ def gen_case(rng, dialect):
         # a parameter used only under a condition on another
         c = rng.choice(used)
         body = progen.L(progen.S("if"), progen.S(c), body, progen.I(7))
-    elif used and r < 0.3:
+    elif r < 0.42 and names:
+        # guard idiom: a parameter (possibly otherwise unused) only decides between returning and raising
+        c = rng.choice(names)
+        t = types[c]
+        if t == "int":
+            cond = progen.L(progen.S(rng.choice(["=", ">"])), progen.S(c), progen.I(rng.randint(0, 9)))
+        elif t == "bytes":
+            cond = progen.L(progen.S("="), progen.L(progen.S("sha256"), progen.S(c)), ("hex", bytes(rng.randrange(256) for _ in range(32))))
+        else:
+            cond = progen.L(progen.S("l"), progen.S(c)) if rng.random() < 0.5 else progen.S(c)
+        if rng.random() < 0.5:
+            cond = progen.L(progen.S("not"), cond)
+        body = progen.L(progen.S("if"), cond, body, progen.L(progen.S("x")))
+    elif used and r < 0.5:
         # a parameter used only in a failing branch
         c = rng.choice(used)
         body = progen.L(progen.S("if"), progen.L(progen.S("="), progen.I(1), progen.I(2)), progen.L(progen.S("x"), progen.S(c)), body)
